@@ -582,6 +582,8 @@ var dbKeyAlphabets = [][]string{
 	{"a", "b", "a/b", "a/c", "b/a", "a-b", "a.b", "/", "/a", "/a/b", "ab", "a/", "a\x01b", "a b", "k%41", "a\xff", "\xc3("},
 	{"/x/1", "/x/2", "/x/10", "/x", "/y/1", "/x/1/a", "/x-1", "x", "y", "z"},
 	{"p", "p-1", "p-00000000000000000001", "p-0abc", "p/q", "q", "p.", "p-", "p--1"},
+	// first segments of eight bytes and more next to short ones (the abbreviated keys of the write batch's index)
+	{"abcdefgh/x", "abcdefgz", "abc/z", "abcdefg", "abcdefgzz", "abbzzzzzz/", "abcd/", "abcdefgh", "abcdefghi/j/k", "abcdefgh/", "abcdefghij", "abcdefgh/x/y"},
 }
 
 func (g *dbGen) key() []byte { return g.keys[g.rng.Intn(len(g.keys))] }
